@@ -365,6 +365,26 @@ func paramOrNil(fn *ssa.Function, i int) ssa.Value {
 	return nil
 }
 
+// isZeroValueConst: the zero value of any type, as a constant (nil, 0, "", false).
+func isZeroValueConst(v ssa.Value) bool {
+	c, ok := v.(*ssa.Const)
+	if !ok {
+		return false
+	}
+	if c.Value == nil {
+		return true
+	}
+	switch c.Value.Kind() {
+	case constant.Bool:
+		return !constant.BoolVal(c.Value)
+	case constant.String:
+		return constant.StringVal(c.Value) == ""
+	case constant.Int, constant.Float, constant.Complex:
+		return constant.Sign(c.Value) == 0
+	}
+	return false
+}
+
 func isZeroConst(v ssa.Value) bool {
 	c, ok := v.(*ssa.Const)
 	if !ok || c.Value == nil {
@@ -456,8 +476,11 @@ func checkCtor(p *core.Program, r *core.Report, fn *ssa.Function, typ string, wa
 		r.Check(good, "R16.2", name, "default "+f, p.Pos(fn.Pos()), "stored value "+core.Describe(v)+": "+why)
 	}
 	var extra []string
-	for f := range lit {
+	for f, v := range lit {
 		if _, ok := want[f]; !ok {
+			if isZeroValueConst(v) {
+				continue // the zero value spelled out is no default
+			}
 			extra = append(extra, f)
 		}
 	}
